@@ -58,6 +58,9 @@ def evaluate_family(text, ctx, family, nontrivial, variant="asan"):
             return Outcome(ok=False, sig=v[1], msg=v[2] + " (before the run crashed later on)", detail=detail,
                            classes=sorted(a.classes) + ["crashed(judged-by-C10)"])
         return Outcome(ok=True, classes=["crashed(judged-by-C10)"])
+    if family == "C10" and len(res.lines) > 20000:
+        # tag-pool boundary sweeps: tens of thousands of trivial records, only the exit status matters here
+        return Outcome(ok=True, nontrivial=True, classes=["tag-pool-boundary-sweep"])
     a = simtrace.analyze(text, res)
     classes = sorted(a.classes)
     if a.incomplete:
